@@ -39,4 +39,11 @@ def run(tier, seed):
         o.name = "C06/" + o.name
     res.add(pl)
     res.assumptions.append("RecursionError on inputs nested deeper than the interpreter's recursion limit is tolerated by the property")
+    # the switch regrouping runs inside the parser on every switch statement: a body it cannot handle is a rejected program
+    # / a stray exception (bounded enumeration, shared with C05)
+    from props import switchcases
+    sc = switchcases.obligations(tier)
+    for o in sc.obs:
+        o.name = "C06/" + o.name[4:]
+    res.add(sc)
     return res
